@@ -66,6 +66,17 @@ CHECKS = {
          'Theorems: mse/mae/brier/log-loss >= 0 with 0 at perfect predictions, rmse monotone in mse; accuracy/F1/AUC <= 1 with 1 at perfect predictions (AUC with ties counted one half); direction table. '
          'All 8 metrics are run on perfect, constant, adversarial, tied and random arrays and compared with the Q model in Coq (log-loss by interval lemmas) and with exact Fraction re-statements; flags compared exhaustively.',
          'Trusted: Coq kernel + vm_compute, Interval tactic, real-number axioms; float32 tolerance 3e-6 relative; sklearn clipping below 1e-6 is outside the quantifier.'),
+
+ 'C11': ('DESIGN.md §4 C11',
+         'Coq soundness proof of an attribute-flow (taint) analysis over traces regenerated from the source by an AST translator + vm_compute of the analysis on the regenerated traces + bitwise differential of source / loaded / twice-loaded models',
+         'Theorem: if the analysis accepts the prediction trace from the restored attribute set, any two objects agreeing on constructor-only and restored attributes read identical values in identical order (so a fresh model that loaded the state predicts like the source); a trace without writes leaves the object unchanged. '
+         'Per run the traces of predict/predict_proba/get_grads/get_state_dict/load_state_dict/fit (model and leaf level) are re-translated and the obligations re-evaluated in Coq; the export/import key tables are cross-checked; predictions are compared bitwise across kernels, task types, encodings, depths, overlap, tuned/fixed temperature, load of a load.',
+         'partial: numerical equality is observed (bitwise) not proved. Trusted: Coq kernel + vm_compute, the translator (fail-closed) and its justified exemption list (leaf: is_adaptive_bandwidth, solver, class_converter*).'),
+ 'C17': ('DESIGN.md §4 C17',
+         'Coq soundness proof of the attribute-flow analysis (history independence) and of a seeded-generator model + vm_compute of the analysis on traces regenerated from the source (both values of use_temperature_tuning) + differential refits / reseeding',
+         'Theorem: if the analysis accepts fit;predict from the empty clean set, a fresh object and an arbitrarily used one that agree on constructor-only attributes read and write identical values; seeding erases all earlier RNG history. '
+         'Per run the trace of xRFM.fit is re-translated (2315 events) and analysed in Coq, RNG call sites are listed (private generators fail closed); predictions are compared bitwise for same-seed fits after 0..10^4 prior draws and for refits after 1-2 earlier fits incl. a tie-forcing accuracy scenario.',
+         'partial: bit-identity and the RNG library behaviour are observed. Trusted: Coq kernel + vm_compute, translator, exemptions (tuning_metric, class_converter_*), the case split on the constructor-only flag use_temperature_tuning.'),
 }
 
 NOT_YET = 'check not built yet in this session (planned, see DESIGN.md §4)'
